@@ -22,6 +22,12 @@ CHECKS = {
  "C14": ("E1-shape", "bounded-exhaustive enumeration of ENUMERATED numbering patterns executed on the real compiler vs. X.680 §20 reference",
          "Every enumeration with <=5 root items and <=3 additions over {id, id(-1), id(0), id(1), id(2), id(5)} (2.4 M notations, thorough) is compiled by the real compiler and its discriminants, order, names, extension flags compared with a 40-line reference of X.680 §20.3-20.6; complete inside the bound, not sampled.",
          "Reference numbering function (self-tested on the X.680 examples) and the syn projection are trusted; numbers outside the 5-point alphabet and >8 items are not covered.", "§4 C14"),
+ "C15": ("E1-shape", "bounded-exhaustive enumeration of FROM expressions executed on the real compiler vs. code-point interval-set reference",
+         "FROM expressions of 1..2 operands (3 for IA5String/PrintableString in thorough) over a 10-operand table per type (strings of length 1,2,3,6; ranges incl. MIN/MAX; multi-byte characters) x | ^ EXCEPT x SIZE absent/before/after/intersected x {assignment, component, included constrained type, constrained parent} x 6 known-multiplier types, serial FROM pairs, and 5 non-known-multiplier types (must give no from); emitted from(..) entries are expanded to a code-point set and compared with the exact set, and with the base alphabet.",
+         "Interval-set algebra self-tested against brute force. On the pinned tree large parts of the alphabet folding are defective (10 known-finding classes); the guarded region is IA5String/VisibleString/NumericString/BMPString with single operands and unions in assignment/component position plus the no-annotation rule.", "§4 C15"),
+ "C16": ("E1-shape", "bounded-exhaustive enumeration of the identifier language (class alphabet) x roles executed on the real compiler vs. naming reference",
+         "Every legal ASN.1 name of length <= 6 over the class alphabet {a,z,A,Z,0,9,-} (the conversion code branches only on lower/upper/digit/hyphen) in each role {module, type + references to it, component, alternative, enumeral, value + reference, named number}, every Rust strict/reserved/weak keyword in its legal spelling per role with hyphenated neighbours, cross-role pairs differing only by case/hyphen, and the TypeScript backend (224 k modules thorough): output parses, identifier legal and non-keyword, letter/digit sequence preserved, case class per role, identifier annotation present and equal whenever the spelling changed, references spelled like the definition.",
+         "Two representatives per character class stand for the whole class (sound because the code inspects only the class). Names longer than 6 are not covered.", "§4 C16"),
 }
 PENDING = {}
 def main():
